@@ -36,6 +36,15 @@ along with the GNU MP Library.  If not, see http://www.gnu.org/licenses/.  */
 #ifndef __GMP_IMPL_H__
 #define __GMP_IMPL_H__
 
+/* verification hooks: empty unless MPIR_VERIF is defined */
+#ifdef MPIR_VERIF
+#include "mpir-verif.h"
+#else
+#define MPIR_VERIF_HIT(id)
+#define MPIR_VERIF_EVT(id,a,b,c,d)
+#define MPIR_VERIF_POINT(id)
+#endif
+
 /* limits.h is not used in general, since it's an ANSI-ism, and since on
    solaris gcc 2.95 under -mcpu=ultrasparc in ABI=32 ends up getting wrong
    values (the ABI=64 values).
